@@ -845,6 +845,8 @@ func (e *Env) call(n *ECall) TV {
 		return TV{S: "(str.substr " + arg(0).S + " " + arg(1).S + " " + arg(2).S + ")", Sort: sString, Ty: strT}
 	case "concat":
 		return TV{S: "(str.++ " + arg(0).S + " " + arg(1).S + ")", Sort: sString, Ty: strT}
+	case "replaceAll":
+		return TV{S: "(str.replace_all " + arg(0).S + " " + arg(1).S + " " + arg(2).S + ")", Sort: sString, Ty: strT}
 	case "fromCode":
 		return TV{S: "(str.from_code " + arg(0).S + ")", Sort: sString, Ty: strT}
 	case "toCode":
